@@ -3,3 +3,11 @@ package isolate
 import "syscall"
 
 var sigquit = syscall.SIGQUIT
+
+// limitMemory caps the address space of a worker, so that a run-away
+// allocation in the code under test kills that worker (which the parent
+// reports) instead of exhausting the machine.
+func limitMemory() {
+	lim := syscall.Rlimit{Cur: 12 << 30, Max: 12 << 30}
+	syscall.Setrlimit(syscall.RLIMIT_AS, &lim)
+}
